@@ -1,5 +1,5 @@
 CONSTANTS
-  MaxSteps = 3000
+  MaxSteps = 40000
 SPECIFICATION Spec
 CONSTRAINT ReportConstraint
 CHECK_DEADLOCK FALSE
